@@ -406,6 +406,20 @@ pub fn collect_files(rng: &mut Rng, seed: u64, tier: &str, stim: Option<&str>, m
         let at = files.len() * (k + 1) / (n_big + 1);
         files.insert(at, (assemble(&l), Some(exp_tiles_json(&l)), true));
     }
+    // very regular layouts (consecutive IDs, equal lengths, back-to-back data): directories that compress to fewer
+    // bytes than they have entries -- root only and in leaves, every codec
+    for (k, n) in [(0usize, 700usize), (1, 5000), (2, 5000), (3, 300)] {
+        let tiles: Vec<HEntry> = (0..n as u64).map(|i| HEntry { id: 50 + i, run: 1, len: 20, off: 20 * i }).collect();
+        let root: Vec<Node> = if k == 2 {
+            tiles.chunks(1000).map(|c| Node::Leaf(c.iter().cloned().map(Node::Tile).collect())).collect()
+        } else {
+            tiles.iter().cloned().map(Node::Tile).collect()
+        };
+        let l = Layout { ic: 2 + (k % 3) as u8, order: [0, 1, 2, 3], gap: 0, root, meta: b"{}".to_vec(), data: rng.bytes(20 * n),
+                         clustered: true, small: [1, 1, 0, 5, 2], coords: [0; 6], leaves_reversed: false };
+        let at = files.len() * (k + 1) / 5;
+        files.insert(at, (assemble(&l), Some(exp_tiles_json(&l)), true));
+    }
     // fixtures written by the upstream Go writer (the planet fixture has no tile data; thorough only)
     for (k, p) in FIXTURES.iter().enumerate() {
         if k == 2 && tier != "thorough" {
